@@ -46,8 +46,8 @@ type Sched struct {
 	finish   chan int64
 	names    map[int64]string
 	exempt   map[int64]bool
-	Unnamed  string // label for goroutines that did not register (the timer goroutine)
-	ExitPt   string // a point that means "this unnamed goroutine is finished"; released at once
+	Unnamed  string       // label for goroutines that did not register (the timer goroutine)
+	ExitPt   string       // a point that means "this unnamed goroutine is finished"; released at once
 	Clock    func() int64 // logical clock shared with the harness (optional)
 	Events   []Event
 	Settle   time.Duration
